@@ -7,7 +7,7 @@ specification's encoding, deserialize() with the canonical value; relaxed forms 
 same bytes; the length must be a member of the real type's bit_length_set.
 """
 from __future__ import annotations
-from .. import core, tlc, tlaval, wire_replay as wr
+from .. import core, tlc, tlaval, dsdlio, wire_replay as wr
 from . import c02
 
 def _omit_defaults(t, v, py):
@@ -47,7 +47,8 @@ def worker(arg):
         bls = X.bit_length_set if (hdr or not isinstance(X, pydsdl.DelimitedType)) else X.inner_type.bit_length_set
         if len(got) * 8 not in set(bls):
             diff.append(("length not in bit_length_set", len(got) * 8, sorted(bls)[:20]))
-        back = wr.from_py(t, pydsdl.deserialize(X, got, with_delimiter_header=hdr))
+        from .c07 import carrier
+        back = wr.from_py(t, pydsdl.deserialize(X, got if core.pick(block, "carrier", 3) else carrier(got, len(got) // 2), with_delimiter_header=hdr))
         if back != out["canon"]:
             diff.append(("deserialize(serialize(v))", tlaval.to_json(back), tlaval.to_json(out["canon"])))
         for relaxed in (1, 2):
@@ -174,6 +175,65 @@ def float_worker(arg):
         r["bad"] = {"kind": "float-sample", "case": [n, mode], "diff": diff[:5]}
     return r
 
+# Types that one process may hold at the same time and that compare equal (same name, version and bit length set) although
+# their encodings differ: the variants / fields come in another order.  Expected bytes by closed form.
+TWIN_TYPES = {
+    "U": ("@union\nuint8 a\nuint16 b\n@sealed\n", "@union\nuint16 b\nuint8 a\n@sealed\n"),
+    "S": ("uint8 a\nuint16 b\n@sealed\n", "uint16 b\nuint8 a\n@sealed\n"),
+    "D": ("@union\nuint8 a\nuint16 b\n@extent 64\n", "@union\nuint16 b\nuint8 a\n@extent 64\n"),
+}
+
+def _twin_expected(kind, rev, val, hdr):
+    order = ["b", "a"] if rev else ["a", "b"]
+    enc = {"a": lambda x: bytes([x]), "b": lambda x: x.to_bytes(2, "little")}
+    if kind in ("U", "D"):
+        (name, x), = val.items()
+        body = bytes([order.index(name)]) + enc[name](x)
+    else:
+        body = b"".join(enc[n](val[n]) for n in order)
+    return (len(body).to_bytes(4, "little") if hdr else b"") + body
+
+@core.safe
+def twin_order_worker(arg):
+    """Both revisions are loaded into ONE process and used alternately, starting with either."""
+    import pydsdl
+    kind, first = arg
+    texts = TWIN_TYPES[kind]
+    diff = []
+    types = []
+    for n in (0, 1):
+        with dsdlio.Tree({"vnd/T.0.1.dsdl": texts[n]}, "c06tw") as tr:
+            status, res, _ = dsdlio.read_ns(tr.path("vnd"))
+            if status != "ok":
+                return {"harness_exception": "twin type rejected: %s" % (res,)}
+            types.append(res[0])
+    vals = [{"a": 5}, {"b": 0x1234}] if kind in ("U", "D") else [{"a": 5, "b": 0x1234}, {"a": 0, "b": 1}]
+    seq = [first, 1 - first, first, 1 - first]
+    for n in seq:
+        for v in vals:
+            hdr = kind == "D"
+            try:
+                got = pydsdl.serialize(types[n], v, with_delimiter_header=hdr)
+                back = pydsdl.deserialize(types[n], got, with_delimiter_header=hdr)
+            except Exception as ex:
+                diff.append(("exception", n, v, type(ex).__name__, str(ex)[:100]))
+                continue
+            exp = _twin_expected(kind, n == 1, v, hdr)
+            if got != exp:
+                diff.append(("serialize with revision %d (used %s)" % (n, "first" if n == first else "second"), v, got.hex(), exp.hex()))
+            if back != v:
+                diff.append(("deserialize(serialize(v)) with revision %d" % n, v, back))
+            # bytes written with the OTHER revision's layout are read by this revision's layout
+            other = _twin_expected(kind, n != 1, v, hdr)
+            try:
+                pydsdl.deserialize(types[n], other, with_delimiter_header=hdr)
+            except (pydsdl.SerDesError, ValueError):
+                pass
+    r = {"nt": True, "key": "twin-%s-%d" % (kind, first)}
+    if diff:
+        r["bad"] = {"kind": "wire-twins", "case": {"kind": kind, "first": first}, "diff": diff[:4]}
+    return r
+
 def run(ctx):
     ctx.rule = ("TLC enumerates (type, value, header flag): types grown from seven primitives by arrays, structures and "
                 "unions with five sibling kinds (incl. composite, delimited, variable-length), sealed and delimited, to "
@@ -196,6 +256,7 @@ def run(ctx):
         c02.run_cfg(ctx, "Wire", "Wire_values_deep.cfg", worker, "wiredeep")
     wide = [(n, s, m) for n in list(range(1, 65)) for (s, m) in ((False, "s"), (False, "t"), (True, "s")) if not (s and n < 2)]
     c02.consume(ctx, core.pmap(wide_worker, wide, chunksize=8), "wide")
+    c02.consume(ctx, core.pmap(twin_order_worker, [(k, f) for k in sorted(TWIN_TYPES) for f in (0, 1)], procs=6, chunksize=1), "twins")
     c02.consume(ctx, core.pmap(float_worker, [(n, m) for n in (16, 32, 64) for m in ("s", "t")], procs=6, chunksize=1), "float")
     # IEEE 754 binary16 / binary32: decided by Floats.tla (every binade x boundary fractions x eighths of an ulp x sign x cast
     # mode; thorough: every binary16 pattern)
